@@ -64,6 +64,28 @@ impl Buildpack for TB {
         writeln!(s, "store={}", hex(format!("{:?}", c.store).as_bytes())).unwrap();
         dump(s);
         if std::env::var("VERIF_DO").unwrap_or_default() != "pass" { return Err(Error::BuildpackError(TErr)); }
+        if std::env::var("VERIF_LAYERS").is_ok() {
+            // C20: layer work whose on-disk result must not depend on the process (hash seeds, iteration order, time)
+            use libcnb::layer::{CachedLayerDefinition, InvalidMetadataAction, RestoredLayerAction, UncachedLayerDefinition};
+            use libcnb::layer_env::{LayerEnv, ModificationBehavior as MB, Scope};
+            let alpha = c.uncached_layer(libcnb::data::layer_name!("alpha"), UncachedLayerDefinition { build: true, launch: true })?;
+            let mut env = LayerEnv::new();
+            for i in 0..24 {
+                let scope = match i % 4 { 0 => Scope::All, 1 => Scope::Build, 2 => Scope::Launch, _ => Scope::Process(["web", "worker", "console"][i % 3].to_string()) };
+                let mb = match i % 5 { 0 => MB::Append, 1 => MB::Default, 2 => MB::Override, 3 => MB::Prepend, _ => MB::Delimiter };
+                env.insert(scope, mb, format!("VAR_{i}"), format!("value-{i}\n"));
+            }
+            alpha.write_env(env)?;
+            alpha.write_sboms(&[Sbom::from_bytes(SbomFormat::SyftJson, b"{\"a\":1}".to_vec()), Sbom::from_bytes(SbomFormat::CycloneDxJson, b"{}".to_vec())])?;
+            let me = c.buildpack_dir.join("buildpack.toml"); // any small existing file serves as the program to copy
+            alpha.write_exec_d_programs((0..12).map(|i| (format!("prog-{i}"), me.clone())).collect::<std::collections::HashMap<_, _>>())?;
+            std::fs::write(alpha.path().join("payload.bin"), b"payload").unwrap();
+            let beta = c.cached_layer(libcnb::data::layer_name!("beta"), CachedLayerDefinition { build: false, launch: true,
+                invalid_metadata_action: &|_| InvalidMetadataAction::DeleteLayer, restored_layer_action: &|_: &GenericMetadata, _| RestoredLayerAction::KeepLayer })?;
+            let mut t = toml::Table::new();
+            for i in 0..16 { t.insert(format!("key_{}", (i * 7) % 16), toml::Value::String(format!("v{i}"))); }
+            beta.write_metadata(t)?;
+        }
         let parts = std::env::var("VERIF_PARTS").unwrap_or_default();
         let has = |x: &str| parts.split(',').any(|p| p == x);
         let fmts = [SbomFormat::CycloneDxJson, SbomFormat::SpdxJson, SbomFormat::SyftJson];
